@@ -6,21 +6,21 @@
 package backend
 
 //@ func (*BfeBackend).Avail
-//@   props C06
+//@   props C06,C07
 //@   nopanic
 //@   requires back != nil
 //@   modifies nothing
 //@   ensures result0 == back.avail
 
 //@ func (*BfeBackend).ConnNum
-//@   props C06
+//@   props C06,C07
 //@   nopanic
 //@   requires back != nil
 //@   modifies nothing
 //@   ensures result0 == back.connNum
 
 //@ func (*BfeBackend).setAvail
-//@   props C06
+//@   props C06,C07
 //@   nopanic
 //@   requires back != nil
 //@   modifies back.avail, back.failNum
@@ -29,7 +29,7 @@ package backend
 //@   ensures !avail ==> back.failNum == old(back.failNum)
 
 //@ func (*BfeBackend).SetAvail
-//@   props C06
+//@   props C06,C07
 //@   nopanic
 //@   requires back != nil
 //@   modifies back.avail, back.failNum
@@ -52,35 +52,35 @@ package backend
 //@   ensures back.connNum == old(back.connNum) - 1
 
 //@ func (*BfeBackend).AddFailNum
-//@   props C06
+//@   props C06,C07
 //@   nopanic
 //@   requires back != nil && back.failNum < 1000000000000
 //@   modifies back.failNum
 //@   ensures back.failNum == old(back.failNum) + 1
 
 //@ func (*BfeBackend).ResetFailNum
-//@   props C06
+//@   props C06,C07
 //@   nopanic
 //@   requires back != nil
 //@   modifies back.failNum
 //@   ensures back.failNum == 0
 
 //@ func (*BfeBackend).AddSuccNum
-//@   props C06
+//@   props C06,C07
 //@   nopanic
 //@   requires back != nil && back.succNum < 1000000000000
 //@   modifies back.succNum
 //@   ensures back.succNum == old(back.succNum) + 1
 
 //@ func (*BfeBackend).ResetSuccNum
-//@   props C06
+//@   props C06,C07
 //@   nopanic
 //@   requires back != nil
 //@   modifies back.succNum
 //@   ensures back.succNum == 0
 
 //@ func (*BfeBackend).CheckAvail
-//@   props C06
+//@   props C06,C07
 //@   nopanic
 //@   requires back != nil
 //@   modifies back.succNum
@@ -89,7 +89,7 @@ package backend
 //@   ensures !result0 ==> back.succNum == old(back.succNum)
 
 //@ func (*BfeBackend).UpdateStatus
-//@   props C06
+//@   props C06,C07
 //@   nopanic
 //@   requires back != nil
 //@   modifies back.avail, back.failNum
@@ -99,7 +99,7 @@ package backend
 //@   ensures back.failNum == old(back.failNum)
 
 //@ func (*BfeBackend).OnSuccess
-//@   props C06
+//@   props C06,C07
 //@   nopanic
 //@   requires back != nil
 //@   modifies back.failNum
